@@ -402,17 +402,18 @@ func runC06(c *Ctx) {
 			var sb strings.Builder
 			sb.WriteString("a 1 IN TXT ( x ")
 			acc, at511 := 0, false
-			for j, k := range lens {
-				if j > 0 && (acc+1)%512 == 0 {
-					at511 = true
-				}
-				if j > 0 {
+			// the lexer puts a blank in front of a further comment only when more than one octet has been gathered
+			for _, k := range lens {
+				if acc > 1 {
+					if (acc+1)%512 == 0 {
+						at511 = true
+					}
 					acc++
 				}
 				sb.WriteString(";" + strings.Repeat("c", k) + "\n ")
 				acc += 1 + k
 			}
-			if (acc+1)%512 == 0 {
+			if acc > 1 && (acc+1)%512 == 0 {
 				at511 = true
 			}
 			sb.WriteString("y ;d\n )\n")
